@@ -9,6 +9,7 @@ requests
   insnstext <p> <u> <c0c1c2> <idx> <inorder>
   setns <p> <u> | delns <p> | delrule <i> | setprefix <i> <q>
   setsel <i> <ssels> | insstyle <ssels> <idx> <inorder> | insobj <sels> <idx> <inorder>
+  setnstext <i> <p> <u> <c0c1c2> | rawdel <i> | insmedia <i> <ssels> <idx>
   wreset                            two empty sheets, no followed object
   w <side> <one of the requests above>      side: `0` = sheet A, `1` = sheet B
   wgrab <side> <i> <ssels> | wshare <side> <idx> <inorder> | wobjsel <ssels>
@@ -202,6 +203,9 @@ def parseOp (ws : List String) : Option Op :=
     | some i, some p, some u, [a, b, d] => some (.setNsText i p u (a == '1') (b == '1') (d == '1'))
     | _, _, _, _ => none
   | ["rawdel", i] => i.toNat?.map .rawDel
+  | ["insmedia", i, sels, idx] => match i.toNat?, parseSSels sels, parseIdx idx with
+    | some i, some sels, some idx => some (.insMediaText i sels idx)
+    | _, _, _ => none
   | ["insobj", sels, idx, io] => match parseRSels sels, parseIdx idx, parseBool io with
     | some sels, some idx, some io => some (.insStyleObj sels idx io)
     | _, _, _ => none
